@@ -277,6 +277,7 @@ def run(ctx, P):
     from . import r2
     r2.known_answers_always_consulted(ctx, P, "C10f")
     r2.cache_update_rules(ctx, P, "C10g", want=("reset",))
+    r2.compares_like_with_like(ctx, P, "C10h", fnames=("matches",))
     clause_e(ctx, P)
     clause_a(ctx, P)
     clause_b(ctx, P)
